@@ -415,7 +415,7 @@ fn extra_strategy() -> impl Strategy<Value = Extra> {
     prop_oneof![
         3 => (0u8..IN_IMMUTABLE_NAMES.len() as u8, c()).prop_map(|(name, content)| Extra::InImmutable { name, content }),
         1 => (any::<u16>(), c()).prop_map(|(trio, content)| Extra::SubdirLookalike { trio, content }),
-        2 => (0u8..6, c()).prop_map(|(kind, content)| Extra::Beside { kind, content }),
+        3 => (0u8..7, c()).prop_map(|(kind, content)| Extra::Beside { kind, content }),
         3 => (1u8..=12, 1u8..8, c()).prop_map(|(off, mask, content)| Extra::Beyond { off, mask, content }),
     ]
 }
@@ -552,7 +552,23 @@ impl Disk {
             Extra::Beside { kind, content } => {
                 let b = content.bytes();
                 let db_dir = &self.db_dir;
-                match kind % 6 {
+                // 6 (only when the database directory itself is handed over, i.e. `<db>/immutable` exists directly below
+                // it): other directories NAMED `immutable` elsewhere in the tree, holding look-alike trios
+                let kind = if kind % 7 == 6 && self.pass_dir != self.db_dir { 0 } else { kind % 7 };
+                match kind {
+                    6 => {
+                        for place in ["ledger", "aaa", "zzz", ".snapshots"] {
+                            let d = db_dir.join(place).join("immutable");
+                            if std::fs::create_dir_all(&d).is_err() {
+                                continue; // another extra put a FILE of that name there
+                            }
+                            for n in db.first..=db.last() {
+                                for e in 0..3 {
+                                    std::fs::write(d.join(canonical_name(n, e)), &b).unwrap();
+                                }
+                            }
+                        }
+                    }
                     0 => {
                         std::fs::create_dir_all(db_dir.join("ledger")).unwrap();
                         std::fs::create_dir_all(db_dir.join("volatile")).unwrap();
@@ -562,7 +578,7 @@ impl Disk {
                     1 => std::fs::write(db_dir.join("protocolMagicId"), &b).unwrap(),
                     2 => {
                         std::fs::create_dir_all(db_dir.join("ledger")).unwrap();
-                        std::fs::write(db_dir.join("ledger").join("immutable"), &b).unwrap();
+                        let _ = std::fs::write(db_dir.join("ledger").join("immutable"), &b); // (may already be a directory)
                     }
                     3 => {
                         let d = db_dir.join("immutable.bak");
@@ -609,6 +625,7 @@ fn extra_class(extra: &Extra) -> &'static str {
     match extra {
         Extra::InImmutable { .. } => "non-immutable-name",
         Extra::SubdirLookalike { .. } => "subdir-lookalike",
+        Extra::Beside { kind, .. } if kind % 7 == 6 => "other-directories-named-immutable",
         Extra::Beside { .. } => "beside",
         Extra::Beyond { .. } => "beyond-last",
     }
